@@ -10,7 +10,7 @@ RULE = ("Cases: a phase series (2-12 cycles of unequal length; monotone 'good' c
         "Cycles(phase, use_cache=False): compute_cycle_metric(name, values, func in {mean,max,sum,len,first,range}, mode in "
         "{cycle, augmented}), add_cycle_metric (right and wrong length), compute_cycle_timings, pick_cycle_subset with 1-3 "
         "condition strings over existing metrics using all six comparators and int / negative / decimal / exponent "
-        "literals, compute_chain_timings, get_metric_dataframe(all | subset=True | conditions). Oracle: a reference model "
+        "literals, compute_chain_timings, re-picking the previous conditions verbatim (after metrics may have been overwritten), get_metric_dataframe(all | subset=True | conditions). Oracle: a reference model "
         "(plain lists on the independently recomputed wrap partition) checked after every step: every metric has one "
         "entry per cycle and equals func on that cycle's samples (augmented: the cycle plus the run of samples back to the "
         "closest trough, i.e. phase >= 1.5pi, on its left; missing for the first cycle); get_matching_cycles == the "
@@ -55,6 +55,8 @@ OPS = st.one_of(
     st.tuples(st.just('subset'), st.lists(st.tuples(st.integers(0, 7), st.sampled_from(['<', '<=', '>', '>=', '!=']), st.sampled_from(LITERALS[17:])),
                                            min_size=1, max_size=1)),
     st.tuples(st.just('chain_timings')),
+    st.tuples(st.just('repick')),          # the previous selection's condition strings again, verbatim
+    st.tuples(st.just('repick')),
     st.tuples(st.just('dataframe'), st.sampled_from(['all', 'subset', 'conditions']),
               st.tuples(st.integers(0, 7), st.sampled_from(sorted(COMPS)), st.sampled_from(LITERALS))),
 )
@@ -199,6 +201,8 @@ def oracle(case, rec):
             _, slot, seed, fname, mode = op
             name = ('aug%d' if mode == 'augmented' else 'm%d') % slot
             vals = np.round(np.random.default_rng(seed).standard_normal(N) * 5, 3)
+            if seed % 3 == 0:
+                vals = np.round(vals).astype(int)          # integer observations, non-integer statistics
             func = FUNCS[fname]
             res = both('compute_cycle_metric/' + mode, lambda C: C.compute_cycle_metric(name, vals.copy(), func, mode=mode))
             exp = []
@@ -255,8 +259,28 @@ def oracle(case, rec):
             model['stop_sample'] = [b - 1 for a, b in segs]
             model['duration'] = [b - a for a, b in segs]
             rec.cls('op timings')
-        elif kind == 'subset':
-            strs, valid = eval_conds(op[1])
+        elif kind in ('subset', 'repick'):
+            if kind == 'repick':
+                if not state.get('last_strs'):
+                    continue
+                # same condition strings as the last pick, evaluated against the *current* metrics
+                strs = list(state['last_strs'])
+                valid = np.ones(K, dtype=bool)
+                usable = True
+                for c in strs:
+                    name = [n for n in metric_names() if c.startswith(n) and c[len(n)] in '=<>!']
+                    name = max(name, key=len)
+                    comp = c[len(name):len(name) + 2] if c[len(name):len(name) + 2] in COMPS else c[len(name)]
+                    lit = c[len(name) + len(comp):]
+                    if name in undecided:
+                        usable = False
+                    with np.errstate(invalid='ignore'):
+                        valid &= COMPS[comp](np.asarray(cont['on'].metrics[name], dtype=float), float(lit))
+                if not usable:
+                    continue
+                rec.cls('op repick')
+            else:
+                strs, valid = eval_conds(op[1])
             for k, C in cont.items():
                 try:
                     got = np.asarray(C.get_matching_cycles(list(strs)), dtype=bool)
@@ -269,6 +293,7 @@ def oracle(case, rec):
                 rec.cls('empty-selection-skipped(not last op)')
                 continue            # an empty selection may be rejected and ends the history: only tried as the last op
             res = both('pick_cycle_subset', lambda C: C.pick_cycle_subset(list(strs)))
+            state['last_strs'] = list(strs)
             state['cond_names'] = {c.split('=')[0].split('<')[0].split('>')[0].split('!')[0] for c in strs}
             state['dirty'] = 'chain_ind' in state['cond_names']
             if res['on'][1] is not None:
